@@ -88,6 +88,9 @@ class IrToPythonCompiler:
         """Emit a header suitable for in a python file"""
         self.emit(f"# Automatically generated on {time.ctime()}")
         self.emit(f"# Generator {__file__}")
+        # Float constants are emitted as math.inf / math.nan, also when
+        # the runtime (which imports math itself) is not part of the output.
+        self.emit("import math")
 
     def generate_runtime(self):
         self.emit("")
